@@ -676,10 +676,26 @@ pub fn run(tier: &str) -> i32 {
     if !gc_deleted {
         rep.machinery("vacuity guard: the GC pass of the race scenario never deleted anything");
     }
+    if scenario_selected("pin-registry") {
+        pin_registry_space(&mut rep, tier);
+    }
     rep.finish()
 }
 
 pub fn replay(v: &serde_json::Value) -> i32 {
+    if v["kind"] == "pin-history" {
+        let h: Vec<PinOp> = serde_json::from_value(v["history"].clone()).expect("history");
+        return match pin_replay(&h) {
+            Ok(m) => {
+                println!("history {h:?}: the registry agrees with the reference ({m:?}); no violation");
+                0
+            }
+            Err((sig, msg)) => {
+                println!("violation [{sig}]: {msg}");
+                1
+            }
+        };
+    }
     if v["kind"] == "history" {
         let hc: HistCfg = serde_json::from_value(v["cfg"].clone()).expect("cfg");
         let hist: Vec<Op> = serde_json::from_value(v["history"].clone()).expect("history");
@@ -702,4 +718,213 @@ pub fn replay(v: &serde_json::Value) -> i32 {
     }
     let p: RaceParams = serde_json::from_value(v["params"].clone()).expect("params");
     super::replay_schedule(race_factory(p), v)
+}
+
+// ---------------------------------------------------------------------------------------------------------------------
+// C09 (c): the pin registry as a state machine. Explicit-state search (BFS over operation histories, deduplicated on
+// the reference state) of the real ChunkPinRegistry: pin / try_pin over every ordering of two paths, dropping any live
+// guard, begin_delete / dropping a claim. After every operation the registry must agree with a reference (a pin
+// count per path, a set of claims): a refused try_pin changes nothing, a chunk is pinned exactly while some live guard
+// lists it, a claim is granted exactly when the path is not pinned (one collector per process: a claimed path is not claimed a second time).
+// ---------------------------------------------------------------------------------------------------------------------
+
+#[derive(Debug, Clone, PartialEq, Eq, PartialOrd, Ord, serde::Serialize, serde::Deserialize)]
+pub enum PinOp {
+    Pin(Vec<String>),
+    TryPin(Vec<String>),
+    /// drop the i-th live guard (in creation order)
+    DropGuard(usize),
+    BeginDelete(String),
+    DropClaim(String),
+}
+
+#[derive(Default, Clone, PartialEq, Eq, PartialOrd, Ord, Debug)]
+struct PinModel {
+    guards: Vec<Vec<String>>,
+    claims: BTreeSet<String>,
+}
+
+impl PinModel {
+    fn count(&self, p: &str) -> usize {
+        self.guards.iter().map(|g| g.iter().filter(|x| x.as_str() == p).count()).sum()
+    }
+}
+
+const PIN_PATHS: [&str; 2] = ["t/data/x.parquet", "t/data/z.parquet"];
+
+fn pin_lists() -> Vec<Vec<String>> {
+    let (x, z) = (PIN_PATHS[0].to_string(), PIN_PATHS[1].to_string());
+    vec![vec![x.clone()], vec![z.clone()], vec![x.clone(), z.clone()], vec![z, x]]
+}
+
+/// replays `hist` on a fresh registry next to the reference; Err = the first disagreement
+fn pin_replay(hist: &[PinOp]) -> Result<PinModel, (String, String)> {
+    let reg = ChunkPinRegistry::new();
+    let mut m = PinModel::default();
+    let mut guards: Vec<cardinalsin::compactor::pins::PinGuard> = Vec::new();
+    let mut claims: BTreeMap<String, cardinalsin::compactor::pins::DeleteClaim> = BTreeMap::new();
+    for (i, op) in hist.iter().enumerate() {
+        match op {
+            PinOp::Pin(l) => {
+                guards.push(reg.pin(l.clone()));
+                m.guards.push(l.clone());
+            }
+            PinOp::TryPin(l) => {
+                let claimed: Vec<String> = l.iter().filter(|p| m.claims.contains(*p)).cloned().collect();
+                match reg.try_pin(l.clone()) {
+                    Ok(g) => {
+                        if !claimed.is_empty() {
+                            return Err(("C09:pins:pinned-a-chunk-that-is-being-deleted".into(), format!("step {i} {op:?}: granted although {claimed:?} is claimed by the garbage collector; history {hist:?}")));
+                        }
+                        guards.push(g);
+                        m.guards.push(l.clone());
+                    }
+                    Err(mut gone) => {
+                        if claimed.is_empty() {
+                            return Err(("C09:pins:try-pin-refused-without-a-claim".into(), format!("step {i} {op:?}: refused with {gone:?} although nothing is claimed; history {hist:?}")));
+                        }
+                        gone.sort();
+                        let mut want = claimed.clone();
+                        want.sort();
+                        if gone != want {
+                            return Err(("C09:pins:try-pin-reports-wrong-chunks".into(), format!("step {i} {op:?}: refused with {gone:?}, claimed are {want:?}; history {hist:?}")));
+                        }
+                    }
+                }
+            }
+            PinOp::DropGuard(k) => {
+                drop(guards.remove(*k));
+                m.guards.remove(*k);
+            }
+            PinOp::BeginDelete(p) => {
+                let want = m.count(p) == 0;
+                match reg.begin_delete(p) {
+                    Some(c) => {
+                        if !want {
+                            return Err(("C09:pins:delete-claim-granted-on-a-pinned-chunk".into(), format!("step {i} {op:?}: granted although the chunk is pinned by {} live guard(s); history {hist:?}", m.count(p))));
+                        }
+                        claims.insert(p.clone(), c);
+                        m.claims.insert(p.clone());
+                    }
+                    None => {
+                        if want {
+                            return Err(("C09:pins:delete-claim-refused-on-a-free-chunk".into(), format!("step {i} {op:?}: refused although no live guard lists the chunk and nobody claims it (the file could never be deleted); history {hist:?}")));
+                        }
+                    }
+                }
+            }
+            PinOp::DropClaim(p) => {
+                drop(claims.remove(p));
+                m.claims.remove(p);
+            }
+        }
+        // observable state after every operation
+        for p in PIN_PATHS {
+            if reg.is_pinned(p) != (m.count(p) > 0) {
+                let sig = if m.count(p) > 0 { "C09:pins:pin-lost-while-its-guard-is-alive" } else { "C09:pins:pinned-without-a-live-guard" };
+                return Err((sig.into(), format!("after step {i} {op:?}: is_pinned({p}) = {}, but {} live guard(s) list it; history {hist:?}", reg.is_pinned(p), m.count(p))));
+            }
+        }
+        let want_n = PIN_PATHS.iter().filter(|p| m.count(p) > 0).count();
+        if reg.pinned_count() != want_n {
+            return Err(("C09:pins:pinned-count".into(), format!("after step {i} {op:?}: pinned_count() = {}, expected {want_n}; history {hist:?}", reg.pinned_count())));
+        }
+    }
+    Ok(m)
+}
+
+fn pin_ops(m: &PinModel, max_guards: usize) -> Vec<PinOp> {
+    let mut v = Vec::new();
+    if m.guards.len() < max_guards {
+        for l in pin_lists() {
+            v.push(PinOp::TryPin(l.clone()));
+            v.push(PinOp::Pin(l));
+        }
+    } else {
+        // a refused try_pin creates no guard: still explore it at the guard limit
+        for l in pin_lists() {
+            if l.iter().any(|p| m.claims.contains(p)) {
+                v.push(PinOp::TryPin(l));
+            }
+        }
+    }
+    for k in 0..m.guards.len() {
+        v.push(PinOp::DropGuard(k));
+    }
+    for p in PIN_PATHS {
+        if m.claims.contains(p) {
+            v.push(PinOp::DropClaim(p.to_string()));
+        } else {
+            // one collector per process: a path that is claimed is not claimed again before the claim is dropped
+            v.push(PinOp::BeginDelete(p.to_string()));
+        }
+    }
+    v
+}
+
+fn pin_registry_space(rep: &mut Report, tier: &str) {
+    let (depth, max_guards) = if tier == "thorough" { (8, 3) } else { (6, 3) };
+    let t0 = std::time::Instant::now();
+    let mut seen: BTreeSet<PinModel> = BTreeSet::new();
+    let mut frontier: Vec<Vec<PinOp>> = vec![vec![]];
+    seen.insert(PinModel::default());
+    let (mut transitions, mut refused_try, mut refused_claims) = (0u64, 0u64, 0u64);
+    let mut viol: BTreeMap<String, (String, Vec<PinOp>, u64)> = BTreeMap::new();
+    for _d in 0..depth {
+        let mut next = Vec::new();
+        for hist in &frontier {
+            let m = match pin_replay(hist) {
+                Ok(m) => m,
+                Err(_) => continue,
+            };
+            for op in pin_ops(&m, max_guards) {
+                let mut h = hist.clone();
+                h.push(op.clone());
+                transitions += 1;
+                match pin_replay(&h) {
+                    Ok(m2) => {
+                        if let PinOp::TryPin(_) = op {
+                            if m2.guards.len() == m.guards.len() {
+                                refused_try += 1;
+                            }
+                        }
+                        if let PinOp::BeginDelete(_) = op {
+                            if m2.claims.len() == m.claims.len() {
+                                refused_claims += 1;
+                            }
+                        }
+                        if seen.insert(m2) {
+                            next.push(h);
+                        }
+                    }
+                    Err((sig, msg)) => {
+                        let e = viol.entry(sig).or_insert((msg, h.clone(), 0));
+                        e.2 += 1;
+                    }
+                }
+            }
+        }
+        frontier = next;
+    }
+    println!(
+        "  C09 (c) pin registry: states={} transitions={} (refused try_pin: {}, refused claims: {}) depth={} violation-sigs={} {:.1}s",
+        seen.len(),
+        transitions,
+        refused_try,
+        refused_claims,
+        depth,
+        viol.len(),
+        t0.elapsed().as_secs_f64()
+    );
+    rep.add_u64("states", seen.len() as u64);
+    rep.add_u64("transitions", transitions);
+    rep.add_u64("executions", transitions);
+    rep.set("pin_registry", json!({"states": seen.len(), "transitions": transitions, "refused_try_pin": refused_try, "refused_delete_claims": refused_claims, "depth": depth, "max_live_guards": max_guards,
+        "rule": "BFS over histories of pin / try_pin (lists [x], [z], [x,z], [z,x]), drop of any live guard, begin_delete / drop of a claim on two paths, on the real ChunkPinRegistry, deduplicated on the reference state (live guards in creation order, claims); after every operation is_pinned / pinned_count / the operation's verdict are compared with the reference"}));
+    if refused_try == 0 || refused_claims == 0 {
+        rep.machinery("vacuity guard: the pin-registry space never saw a refused try_pin / a refused delete claim");
+    }
+    for (sig, (msg, h, n)) in viol {
+        rep.violation_n(&sig, &msg, json!({"kind": "pin-history", "history": h}), n);
+    }
 }
